@@ -30,19 +30,28 @@ pub fn c01_shapes(thorough: bool, seed: u64) -> Vec<Shape> {
         },
         Shape::new("phase2_unpaired_alloc_tail", &[Commit], &[&[Chal, Alloc, Con]]),
         Shape::new("two_commits_two_gates", &[Commit, Commit, AllocMul, Mul, Con], &[]),
+        Shape::new("gate_between_paired_allocations", &[Alloc, AllocMul, Alloc, Con], &[]),
     ];
     if thorough {
         v.push(Shape::new("five_gates_pad8", &[Commit, AllocMul, AllocMul, Mul, Alloc, Alloc, Con], &[&[Chal, AllocMul, Con]]));
         v.push(Shape::new("eight_gates_exact", &[AllocMul, AllocMul, AllocMul, AllocMul, AllocMul, AllocMul, AllocMul, AllocMul, Con], &[]));
         v.push(Shape::new("phase2_growth_past_pow2", &[Commit, AllocMul, AllocMul], &[&[Chal, AllocMul, Con]]));
         v.push(Shape::new("pending_phase1_pair_phase2", &[AllocMul, Alloc], &[&[Chal, Alloc, Alloc, Con]]));
+        // padded 16: the linear combinations are limited to 6 variables each to keep the terms small
+        let mut big = Shape::new("eleven_gates_pad16", &[Commit, AllocMul, AllocMul, AllocMul, AllocMul, Mul, AllocMul, AllocMul, Alloc, Alloc, Con, Con], &[&[Chal, AllocMul, AllocMul, Mul, Con]]);
+        big.lc_width = 6;
+        v.push(big);
+        let mut big2 = Shape::new("sixteen_gates_exact", &vec![AllocMul; 16], &[]);
+        big2.phase1.push(Con);
+        big2.lc_width = 8;
+        v.push(big2);
         let mut rng = rand_chacha::ChaChaRng::seed_from_u64(seed ^ 0xc01);
-        for k in 0..24 {
-            v.push(random_shape(&mut rng, &format!("random{}", k), 8));
+        for k in 0..80 {
+            v.push(random_shape(&mut rng, &format!("random{}", k), if k % 4 == 0 { 16 } else { 8 }));
         }
     } else {
         let mut rng = rand_chacha::ChaChaRng::seed_from_u64(seed ^ 0xc01);
-        for k in 0..2 {
+        for k in 0..8 {
             v.push(random_shape(&mut rng, &format!("random{}", k), 4));
         }
     }
@@ -53,7 +62,7 @@ pub fn c01_shapes(thorough: bool, seed: u64) -> Vec<Shape> {
 pub fn random_shape(rng: &mut rand_chacha::ChaChaRng, name: &str, max_pad: usize) -> Shape {
     loop {
         let mut p1 = vec![];
-        let n_ops = rng.gen_range(1..8);
+        let n_ops = rng.gen_range(1..(if max_pad > 8 { 14 } else { 8 }));
         for _ in 0..n_ops {
             p1.push(match rng.gen_range(0..10) {
                 0 => Commit,
@@ -90,7 +99,10 @@ pub fn random_shape(rng: &mut rand_chacha::ChaChaRng, name: &str, max_pad: usize
             s.coef = Coef::Mixed(rng.gen());
         }
         let (a, b) = s.gates();
-        if (a + b).next_power_of_two() <= max_pad && a + b + s.commits() <= 7 {
+        if (a + b).next_power_of_two() <= max_pad && a + b + s.commits() <= (if max_pad > 8 { 14 } else { 7 }) {
+            if a + b + s.commits() > 7 {
+                s.lc_width = 6;
+            }
             return s;
         }
     }
